@@ -225,7 +225,8 @@ func (d *drv) add(k string) {
 }
 
 func (d *drv) violate(c *tcase, class, detail string) {
-	key := fmt.Sprintf("%s/%s/%s/%s", c.Op, c.stepName(), c.Kind, class)
+	// the key names the shape (operation, kind of fault, what is wrong); the step is in the detail and in the replay object
+	key := fmt.Sprintf("%s/%s/%s", c.Op, c.Kind, class)
 	what := "process killed"
 	switch c.Kind {
 	case "error":
@@ -269,7 +270,10 @@ func sameSteps(a, b []string) bool {
 	return true
 }
 
-// exec runs one triple on the real server. It returns false when the machinery failed.
+// exec runs one triple on the real server. It returns false when the machinery failed (or the specification's
+// step list / answer is not what the code does: "spec out of date"); what the real server shows after the restart
+// is judged in either case - against the allowed states while the step list still matches, against the
+// property's own predicates (fetchable, no orphans, nothing marked) always.
 func (d *drv) exec(c *tcase) bool {
 	d.mu.Lock()
 	d.seq++
@@ -304,6 +308,8 @@ func (d *drv) exec(c *tcase) bool {
 		d.violate(c, "hang", "the server process did not finish the operation, the observation and its shutdown within 120 s\nsteps reached: "+strings.Join(res.steps(), " "))
 		return true
 	}
+	ok := true      // machinery and model fine
+	modelOK := true // the step list matches: the allowed states apply
 	// the step list of the specification must be what the code really goes through
 	got := res.steps()
 	if c.Kind != "kill" {
@@ -314,18 +320,20 @@ func (d *drv) exec(c *tcase) bool {
 	if !sameSteps(got, c.Steps) {
 		d.r.Machinery("spec out of date: %s: GluonCrash.tla lists the steps\n   %s\nthe code went through\n   %s\n%s", c.sig(),
 			strings.Join(c.Steps, " "), strings.Join(got, " "), tail(res.Stderr))
-		return false
+		ok, modelOK = false, false
 	}
 	ack := res.find("ack")
 	switch c.Kind {
 	case "kill":
 		if !res.Killed {
-			d.r.Machinery("%s: the worker was to be killed but exited with %d\n%s", c.sig(), res.ExitCode, tail(res.Stderr))
+			if modelOK {
+				d.r.Machinery("%s: the worker was to be killed but exited with %d\n%s", c.sig(), res.ExitCode, tail(res.Stderr))
+			}
 			return false
 		}
-		if (c.Ack == "OK") != (ack != nil && ack.Status == "OK") {
+		if modelOK && (c.Ack == "OK") != (ack != nil && ack.Status == "OK") {
 			d.r.Machinery("spec out of date: %s: acknowledgement expected %q, worker saw %+v", c.sig(), c.Ack, ack)
-			return false
+			ok = false
 		}
 	default:
 		if res.Killed || res.ExitCode != 0 {
@@ -338,16 +346,16 @@ func (d *drv) exec(c *tcase) bool {
 		}
 		if strings.HasPrefix(ack.Status, "LOST") {
 			d.violate(c, "no-reply", "the client / connector got no completion for the operation: "+ack.Status)
-		} else if ack.Status != c.Ack {
+		} else if ack.Status != c.Ack && modelOK {
 			d.r.Machinery("spec out of date: %s: the specification says the operation is answered %s, the server answered %s %s", c.sig(), c.Ack, ack.Status, ack.Text)
-			return false
+			ok = false
 		}
 		if lv := res.find("live"); lv == nil || lv.Obs == nil {
 			d.r.Machinery("%s: no live observation\n%s", c.sig(), tail(res.Stderr))
 			return false
 		} else if lv.Obs.Err != "" {
 			d.violate(c, "live-observation-failed", "a fresh session on the running server: "+lv.Obs.Err)
-		} else {
+		} else if modelOK {
 			want := c.canonLive()
 			have := canonObs(lv.Obs, d.uidvName, false, false)
 			if have.String() != want.String() {
@@ -377,7 +385,7 @@ func (d *drv) exec(c *tcase) bool {
 		if f := ob.find("fatal"); f != nil {
 			if strings.HasPrefix(f.Msg, "server start:") {
 				d.violate(c, "restart-failed", "a server cannot be started on the directories: "+f.Msg)
-				return true
+				return ok
 			}
 			d.r.Machinery("%s: observer: %s\n%s", c.sig(), f.Msg, tail(ob.Stderr))
 			return false
@@ -385,11 +393,11 @@ func (d *drv) exec(c *tcase) bool {
 		o := ob.find("obs")
 		if ob.TimedOut || o == nil || o.Obs == nil {
 			d.violate(c, "restart-hang-or-crash", fmt.Sprintf("the restarted server did not produce an observation (timeout=%v exit=%d)\n%s", ob.TimedOut, ob.ExitCode, tail(ob.Stderr)))
-			return true
+			return ok
 		}
 		if o.Obs.Err != "" {
 			d.violate(c, "observation-failed", "fresh session after restart: "+o.Obs.Err)
-			return true
+			return ok
 		}
 		have := canonObs(o.Obs, d.uidvName, true, true)
 		if round == 1 {
@@ -399,12 +407,12 @@ func (d *drv) exec(c *tcase) bool {
 			break
 		}
 		first = have
-		d.judge(c, o.Obs, have)
+		d.judge(c, o.Obs, have, modelOK, ack != nil && ack.Status == "OK" && c.Op != "RELEASE")
 		if cl := ob.find("closed"); cl == nil || cl.Err != "" {
 			d.violate(c, "close-after-restart-failed", fmt.Sprintf("clean shutdown of the restarted server: %+v\n%s", cl, tail(ob.Stderr)))
 		}
 	}
-	return true
+	return ok
 }
 
 // canonLive projects the state the specification has at the acknowledgement (user mailboxes, subscriptions, flags).
@@ -417,7 +425,7 @@ func (c *tcase) canonLive() canon {
 }
 
 // judge compares the state after restart with what TLC allows, most specific complaint first.
-func (d *drv) judge(c *tcase, o *obsState, have canon) {
+func (d *drv) judge(c *tcase, o *obsState, have canon, modelOK, ackOK bool) {
 	var allowed []string
 	ok := false
 	for i := range c.Allowed {
@@ -443,6 +451,10 @@ func (d *drv) judge(c *tcase, o *obsState, have canon) {
 	if ok {
 		return
 	}
+	if !modelOK {
+		// the allowed states belong to a step list the code no longer follows: only the property's own predicates
+		allowed = []string{"(not applicable: step list out of date)"}
+	}
 	if len(o.Orphans) > 0 {
 		d.violate(c, "orphan-file", fmt.Sprintf("store files without a message row are left after start-up: %v\nstate   %s\nallowed %s", o.Orphans, have, strings.Join(allowed, "\n        ")))
 		return
@@ -453,12 +465,37 @@ func (d *drv) judge(c *tcase, o *obsState, have canon) {
 			return
 		}
 	}
+	// before-or-after does not depend on the step list: what the user sees is the state before or after the operation
 	pre, post := c.canonState(&c.Pre), c.canonState(&c.Post)
-	class := "state-not-allowed"
-	if c.Ack == "OK" && c.Kind != "error" {
-		class = "acknowledged-state-lost"
+	hu, pu, qu := userView(have), userView(pre), userView(post)
+	if hu.String() != pu.String() && hu.String() != qu.String() {
+		d.violate(c, "neither-before-nor-after", fmt.Sprintf("a fresh session after restart sees\n   %s\nbefore the operation: %s\nafter the operation:  %s", hu, pu, qu))
+		return
 	}
-	d.violate(c, class, fmt.Sprintf("a fresh session after restart sees\n   %s\nthe specification allows\n   %s\n(before the operation: %s)\n(after the operation:  %s)", have, strings.Join(allowed, "\n   "), pre, post))
+	if ackOK && hu.String() != qu.String() {
+		d.violate(c, "acknowledged-state-lost", fmt.Sprintf("the operation was acknowledged, but a fresh session after restart sees the state before it\n   %s\nafter the operation: %s", hu, qu))
+		return
+	}
+	if !modelOK {
+		return
+	}
+	d.violate(c, "state-not-allowed", fmt.Sprintf("a fresh session after restart sees\n   %s\nthe specification allows\n   %s\n(before the operation: %s)\n(after the operation:  %s)", have, strings.Join(allowed, "\n   "), pre, post))
+}
+
+// userView keeps what the user's own mailboxes and subscription list show (the recovery mailbox only ever gains).
+func userView(c canon) canon {
+	out := canon{Boxes: map[string]cBox{}, Lsub: []string{}}
+	for n, b := range c.Boxes {
+		if n != recoveryBox {
+			out.Boxes[n] = b
+		}
+	}
+	for _, n := range c.Lsub {
+		if n != recoveryBox {
+			out.Lsub = append(out.Lsub, n)
+		}
+	}
+	return out
 }
 
 func run(r *ev.Run, tier, replay string) {
